@@ -20,8 +20,8 @@ META = dict(
                 "final assertion (i.e. the greedy pass reaches the requested count for EVERY shuffle, up to the complete DAG); the "
                 "caller's matrix is frozen (any write is reported); a second call with the same seed returns the same graph.",
     bounds=dict(quick="p <= 3: all DAG patterns, no_edges in 0..(feasible maximum + 1), all choice / shuffle outcomes; p = 4: no_edges <= 1 or infeasible; dtypes float (symbolic weights), int 0/1, bool",
-                thorough="p = 4: remove_edges all counts; add_edges no_edges <= 3, the infeasible counts, and completing the DAG (all counts) for DAGs with at least 3 edges"),
-    outside=["p > 4", "add_edges at p = 4 with 4..6 added edges on DAGs with fewer than 3 edges (shuffle prefixes too many)", "which edges are chosen (uniformity)"],
+                thorough="p = 4: remove_edges all counts; add_edges no_edges <= 2, the infeasible counts, and completing the DAG (all counts) for DAGs with at least 4 edges"),
+    outside=["p > 4", "add_edges at p = 4 with 3..6 added edges on DAGs with fewer than 4 edges (too many shuffle prefixes)", "which edges are chosen (uniformity)"],
     stubs=["numpy -> symnp", "numpy.random.default_rng -> contract stub (choice without replacement, shuffle)"],
     assumptions=["z3 sound", "Generator.choice(replace=False) returns distinct positions; Generator.shuffle applies a permutation"],
 )
@@ -233,7 +233,7 @@ def obligations(tier):
                 c4 = [dict(c, dtype='float') for c in I.dag_pair_cubes(4, 3)]
                 d = "remove_edges on every DAG pattern on 4 nodes, all counts"
             else:
-                c4 = [dict(c, dtype='float', max_k=3, full_from=3) for c in I.dag_pair_cubes(4, 3)]
-                d = "add_edges on every DAG pattern on 4 nodes: no_edges <= 3 or infeasible; all counts for DAGs with >= 3 edges"
+                c4 = [dict(c, dtype='float', max_k=2, full_from=4) for c in I.dag_pair_cubes(4, 3)]
+                d = "add_edges on every DAG pattern on 4 nodes: no_edges <= 2 or infeasible; all counts for DAGs with >= 4 edges"
             ob.append(Obligation('%s_p4' % which, _mk(which), c4, d, expect=('returned', 'raised ValueError'), weight=500, timeout_ms=120000))
     return ob
